@@ -16,6 +16,8 @@ import (
 	"tglib/ngapTestpacket"
 
 	"github.com/ishidawataru/sctp"
+
+	peer2 "verifharness/peer"
 )
 
 // Domain suci (C11): stgutg.EncodeSuci, the PLMN that ManageNGSetup takes from it, the copies the NGAP
@@ -28,8 +30,9 @@ import (
 //	ngplmn <imsi:text-hex> <mncLen>        → ok <GlobalGNBID plmn> <BroadcastPLMN plmn> <NR-CGI plmn of InitialUEMessage>
 //	                                          <the one value of every PLMNIdentity in InitialUEMessage, UplinkNASTransport, UEContextReleaseComplete>
 //	                                          (the expression of ngsetup.go line 23, then the real builders)
-//	ngsetup <imsi:text-hex> <mnc:text-hex> → the same two NG Setup fields, taken from the octets the real
-//	                                          stgutg.ManageNGSetup writes to its (socketpair) connection
+//	ngsetup <imsi:text-hex> <mnc:text-hex> → the same four fields: the NG Setup ones taken from the octets the real
+//	                                          stgutg.ManageNGSetup writes to its (socketpair) connection, the later ones
+//	                                          built after the AMF answered with an NG SETUP RESPONSE that lists other PLMNs first
 //
 // Text arguments travel as the hex of their bytes ("-" = empty).
 func init() {
@@ -43,8 +46,14 @@ func init() {
 		return okKeep(m.Buffer) + " " + u(uint64(m.Len))
 	})
 	registerOp("nassuci", func(a []string) string {
-		id := stgutg.EncodeSuci(aHex(a[0]), int(aI64(a[1])))
-		ue := tglib.NewRanUeContext("imsi-"+string(aHex(a[0])), 1, security.AlgCiphering128NEA0, security.AlgIntegrity128NIA2)
+		imsi := aHex(a[0])
+		ue := tglib.NewRanUeContext("imsi-"+string(imsi), 1, security.AlgCiphering128NEA0, security.AlgIntegrity128NIA2)
+		if allDigits(imsi) && len(imsi) <= 18 {
+			// the way the emulator gets there: CreateUE makes the SUPI of UE 0 from the configured IMSI, RegisterUE /
+			// DeregisterUE encode the SUCI from ue.Supi (leading zeros of the MCC included)
+			ue = stgutg.CreateUE(string(imsi), 0, "00112233445566778899aabbccddeeff", "00112233445566778899aabbccddeeff", "")
+		}
+		id := stgutg.EncodeSuci([]byte(strings.TrimPrefix(ue.Supi, "imsi-")), int(aI64(a[1])))
 		reg := nasTestpacket.GetRegistrationRequest(nasMessage.RegistrationType5GSInitialRegistration, *id, nil,
 			ue.GetUESecurityCapability(), nil, nil, nil)
 		dereg := nasTestpacket.GetDeregistrationRequest(nasMessage.AccessType3GPP, 0, 0x04, *id)
@@ -70,33 +79,9 @@ func init() {
 			// DeregisterUE do for every UE; the PLMN announced at NG Setup must still be the one in every later message
 			stgutg.EncodeSuci(aHex(a[2]), int(aI64(a[3])))
 		}
-		// later messages of the same run: every PLMNIdentity inside the emulator-path messages that carry a user
-		// location information (NR-CGI and TAI) copies the package variable TestPlmn
-		ium := ngapTestpacket.BuildInitialUEMessage(1, []byte{0x7e}, "")
-		var cgi []byte
-		for _, ie := range ium.InitiatingMessage.Value.InitialUEMessage.ProtocolIEs.List {
-			if ie.Id.Value == ngapType.ProtocolIEIDUserLocationInformation {
-				cgi = ie.Value.UserLocationInformation.UserLocationInformationNR.NRCGI.PLMNIdentity.Value
-			}
-		}
-		var all [][]byte
-		for _, pdu := range []ngapType.NGAPPDU{ium, ngapTestpacket.BuildUplinkNasTransport(1, 1, []byte{0x7e}),
-			ngapTestpacket.BuildUEContextReleaseComplete(1, 1, nil)} {
-			n := len(all)
-			collectPlmns(reflect.ValueOf(pdu), &all)
-			if len(all)-n < 2 { // NR-CGI and TAI at least
-				return "err"
-			}
-		}
-		tai := all[0]
-		for _, v := range all {
-			if string(v) != string(all[0]) { // not all the same: show them all
-				tai = nil
-				for _, w := range all {
-					tai = append(tai, w...)
-				}
-				break
-			}
+		cgi, tai, ok := laterPlmns()
+		if !ok {
+			return "err"
 		}
 		return "ok " + hx(gnb) + " " + hx(bc) + " " + hx(cgi) + " " + hx(tai)
 	}
@@ -116,14 +101,24 @@ func init() {
 			err error
 		}
 		peer := make(chan peerRes, 1)
-		go func() { // the AMF side: read the request, answer with a decodable PDU (the request itself)
+		go func() {
+			// the AMF side: read the request, answer with an NG SETUP RESPONSE of an AMF that serves two more PLMNs and lists
+			// them before the gNB's own (the request itself, a decodable PDU, when it announces no PLMN)
 			buf := make([]byte, 4096)
 			n, err := syscall.Read(fds[1], buf)
 			if err != nil || n <= 0 {
 				peer <- peerRes{nil, fmt.Errorf("read: %v", err)}
 				return
 			}
-			_, err = syscall.Write(fds[1], buf[:n])
+			ans := buf[:n]
+			if req, e := ngap.Decoder(buf[:n]); e == nil {
+				if own, _ := ngSetupPlmns(*req); len(own) == 3 {
+					other := []byte{own[0] ^ 0x11, own[1], own[2] ^ 0x21}
+					ans = peer2.NgSetupResponse(peer2.AmfIdentity{Name: "amf", PLMN: own, Region: 0xca, SetID: 0x3f8, Pointer: 0,
+						Capacity: 255, SST: 1, SD: []byte{1, 2, 3}, FirstPLMNs: [][]byte{other, {0x13, 0x00, 0x14}}})
+				}
+			}
+			_, err = syscall.Write(fds[1], ans)
 			peer <- peerRes{buf[:n], err}
 		}()
 		// a panic inside ManageNGSetup (short IMSI) must not leave the peer blocked: closing fds[0] wakes it
@@ -146,8 +141,45 @@ func init() {
 			return "err"
 		}
 		gnb, bc := ngSetupPlmns(*pdu)
-		return "ok " + hx(gnb) + " " + hx(bc)
+		// the user location of every later message still names the PLMN announced, whatever the AMF answered
+		cgi, tai, ok := laterPlmns()
+		if !ok {
+			return "err"
+		}
+		return "ok " + hx(gnb) + " " + hx(bc) + " " + hx(cgi) + " " + hx(tai)
 	})
+}
+
+// laterPlmns: the later messages of the same run: every PLMNIdentity inside the emulator-path messages that carry a user
+// location information (NR-CGI and TAI) copies the package variable TestPlmn. cgi = the NR-CGI PLMN of InitialUEMessage,
+// tai = the one value of every PLMNIdentity of the three messages (all of them, concatenated, when they differ)
+func laterPlmns() (cgi, tai []byte, ok bool) {
+	ium := ngapTestpacket.BuildInitialUEMessage(1, []byte{0x7e}, "")
+	for _, ie := range ium.InitiatingMessage.Value.InitialUEMessage.ProtocolIEs.List {
+		if ie.Id.Value == ngapType.ProtocolIEIDUserLocationInformation {
+			cgi = ie.Value.UserLocationInformation.UserLocationInformationNR.NRCGI.PLMNIdentity.Value
+		}
+	}
+	var all [][]byte
+	for _, pdu := range []ngapType.NGAPPDU{ium, ngapTestpacket.BuildUplinkNasTransport(1, 1, []byte{0x7e}),
+		ngapTestpacket.BuildUEContextReleaseComplete(1, 1, nil)} {
+		n := len(all)
+		collectPlmns(reflect.ValueOf(pdu), &all)
+		if len(all)-n < 2 { // NR-CGI and TAI at least
+			return nil, nil, false
+		}
+	}
+	tai = all[0]
+	for _, v := range all {
+		if string(v) != string(all[0]) { // not all the same: show them all
+			tai = nil
+			for _, w := range all {
+				tai = append(tai, w...)
+			}
+			break
+		}
+	}
+	return cgi, tai, true
 }
 
 var plmnType = reflect.TypeOf(ngapType.PLMNIdentity{})
@@ -184,6 +216,15 @@ func ngSetupPlmns(pdu ngapType.NGAPPDU) (gnb, bc []byte) {
 		}
 	}
 	return
+}
+
+func allDigits(b []byte) bool {
+	for _, c := range b {
+		if c < '0' || c > '9' {
+			return false
+		}
+	}
+	return len(b) > 0
 }
 
 func digits(e *emitter, n int) string {
